@@ -1,5 +1,6 @@
 import OVM.Kernel.Lookup
 import OVM.Refine.Inv
+import OVM.Refine.LookupLemmas
 /-
   C10 — lookup queries are sound and complete.
   Proved here for every state satisfying the cache invariant (lookups only read caches and
@@ -10,7 +11,23 @@ import OVM.Refine.Inv
     only if no live halfface contains both;
   * `find_halfface(v0,v1,v2)` is sound; it is complete when the halfedges `v0→v1`, `v1→v2` are unique
     (with parallel duplicate edges the two-stage lookup can miss a face: DESIGN F11);
-  * `is_incident`, `next/prev_halfedge_in_halfface` basic facts.
+  * `is_incident`, `next/prev_halfedge_in_halfface` basic facts
+    (next/prev as cyclic successor/predecessor: Props/C08 `next_prev_inverse`, Refine/NextPrev).
+  Second part (lemmas in OVM/Refine/LookupLemmas.lean, sample state `twoTets`):
+  * `find_halfface_in_cell`: `findHalffaceInCell_sound` — a returned halfface is a halfface of the given cell
+    and runs `v0→v1→v2` (needs the `incident_cell_per_hf_` clause of the cache invariant and that no other
+    live cell lists a halfface of the cell; witness that this is needed); `findHalffaceInCell_complete`
+    (no hypothesis); `findHalffaceInCell_none_iff`; vertex forms `findHalffaceInCell_sound_verts`,
+    `findHalffaceInCell_complete_verts_partial`; `findHalffaceInCell_next_valid` (no read through an
+    invalid handle).  Only the first three vertices are read.
+  * `get_halfface_vertices(hf, vh)` / `(hf, heh)`: `hfVertsFrom_spec`, `hfVertsFromHe_spec`.
+  * `find_halfface(v0,v1,v2,…)`: `findHalffaceV_complete_partial` under uniqueness of both halfedges
+    (`uniqHe`), with `decide` witnesses that each uniqueness hypothesis is necessary (F11).
+  * `n_vertices_in_cell`: `nVerticesInCell_spec`.
+  * `find_halfedge_in_cell`: `findHalfedgeInCell_spec` (sound and complete, every state),
+    `findHalfedgeInCell_mem_closed`.
+  * `find_halfface_extensive`: `findHalffaceExtensive_sound` (the whole vertex cycle, up to rotation),
+    `findHalffaceExtensive_complete_partial`.
 -/
 namespace OVM.Props.C10
 open OVM OVM.Kernel
@@ -138,5 +155,363 @@ example :
                         incHfs := [[0], [1], [0], [1], [0], [1]], incCell := [none, none] }
     k.cacheInvB = true ∧ k.findHalfedge 0 1 = some 0 ∧ k.findHalfedge 1 0 = some 1 ∧ k.findHalfedge 0 0 = none ∧
     k.findHalffaceV [0, 1, 2] = some 0 ∧ k.findHalffaceV [1, 0, 2] = some 1 ∧ k.nextHe 4 0 = some 0 := by decide
+
+open OVM.Kernel.Lookup
+
+/-! ## find_halfface_in_cell, get_halfface_vertices, n_vertices_in_cell, find_halfedge_in_cell,
+    find_halfface_extensive, completeness of the two-stage vertex lookup
+    (lemmas: OVM/Refine/LookupLemmas.lean) -/
+
+/-- sample state for the non-vacuity examples: the tetrahedra `0 1 2 3` (cell 0, halffaces `1 2 7 8`) and
+    `0 1 3 4` (cell 1, halffaces `3 4 11 12`) glued along face 1 (vertices `0 1 3`) -/
+def twoTets : Kernel :=
+  { nV := 5,
+    edges := [(0, 1), (1, 2), (2, 0), (1, 3), (3, 0), (1, 4), (4, 0), (2, 3), (3, 4), (4, 2)],
+    faces := [[0, 2, 4], [0, 6, 8], [0, 10, 12], [5, 14, 8], [2, 14, 7], [9, 16, 12], [6, 16, 11],
+              [13, 18, 4], [10, 18, 3]],
+    cells := [[1, 2, 7, 8], [3, 4, 11, 12]],
+    vDel := List.replicate 5 false, eDel := List.replicate 10 false, fDel := List.replicate 9 false,
+    cDel := List.replicate 2 false,
+    outHes := [[0, 5, 9, 13], [1, 2, 6, 10], [3, 4, 14, 19], [7, 8, 15, 16], [11, 12, 17, 18]],
+    incHfs := [[0, 2, 4], [5, 3, 1], [8, 0, 17], [16, 1, 9], [7, 0, 14], [15, 1, 6], [12, 2, 9],
+               [8, 3, 13], [11, 2, 6], [7, 3, 10], [16, 4, 13], [12, 5, 17], [15, 4, 10], [11, 5, 14],
+               [8, 6], [7, 9], [12, 10], [11, 13], [16, 14], [15, 17]],
+    incCell := [none, some 0, some 0, some 1, some 1, none, none, some 0, some 0, none, none,
+                some 1, some 1, none, none, none, none, none] }
+
+theorem twoTets_inv : CacheInv twoTets := cacheInv_of_cacheInvB _ (by decide)
+
+theorem twoTets_exclusive (c : Nat) (hc : c < 2) : CellExclusive twoTets c :=
+  cellExclusive_of_oneCell twoTets c (by decide) hc
+    (by have : c = 0 ∨ c = 1 := by omega
+        rcases this with rfl | rfl <;> decide)
+    (by have : c = 0 ∨ c = 1 := by omega
+        rcases this with rfl | rfl <;> decide)
+
+/-- **`find_halfface_in_cell` is sound** (cc:1982-2011).  For every state satisfying the cache invariant
+    with face bottom-up incidences on (only the clause `CacheInv.f` about `incident_cell_per_hf_` is used:
+    `adjacent_halfface_in_cell` reads that cache), every cell `c` none of whose halffaces is listed by
+    another not-deleted cell (`CellExclusive`, C01's precondition seen from `c`) and every vertex list
+    `v0 :: v1 :: v2 :: rest`: a returned halfface **is a halfface of cell `c`**, one of its halfedges
+    goes from `v0` to `v1`, and `next_halfedge_in_halfface` of that halfedge ends in `v2`.
+    The C++ reads only `_vs[0.._vs[2]` (cc:1986), so nothing is claimed about `rest`. -/
+theorem findHalffaceInCell_sound (k : Kernel) (hI : CacheInv k) (hb : k.fBU = true) (c v0 v1 v2 : Nat)
+    (rest : List Nat) (hf : Nat) (hx : CellExclusive k c)
+    (h : k.findHalffaceInCell (v0 :: v1 :: v2 :: rest) c = some hf) :
+    hf ∈ k.cellAt c ∧ RunsThrough k hf v0 v1 v2 :=
+  Lookup.findHalffaceInCell_sound k c v0 v1 v2 rest hf (cellCacheOK_of_inv k c hI.f hb hx) h
+
+/-- the same with the hypotheses of C01 spelt out (`oneCell`, a live cell, halfface handles in range), and,
+    when the returned halfface is a closed halfedge cycle, in the vertex form: `v0 v1 v2` are three
+    cyclically consecutive vertices of the returned halfface -/
+theorem findHalffaceInCell_sound_verts (k : Kernel) (hI : CacheInv k) (hb : k.fBU = true) (h1 : k.oneCell = true)
+    (c v0 v1 v2 : Nat) (rest : List Nat) (hf : Nat) (hc : c < k.nC) (hd : k.cDeleted c = false)
+    (hr : ∀ x ∈ k.cellAt c, x < k.nHF) (hcyc : ∀ x ∈ k.cellAt c, HfCyclic k x)
+    (h : k.findHalffaceInCell (v0 :: v1 :: v2 :: rest) c = some hf) :
+    hf ∈ k.cellAt c ∧ ∃ i, i < (k.hfHes hf).length ∧ (k.hfVerts hf)[i]? = some v0 ∧
+      (k.hfVerts hf)[(i + 1) % (k.hfHes hf).length]? = some v1 ∧
+      (k.hfVerts hf)[(i + 2) % (k.hfHes hf).length]? = some v2 := by
+  have := findHalffaceInCell_sound k hI hb c v0 v1 v2 rest hf (cellExclusive_of_oneCell k c h1 hc hd hr) h
+  exact ⟨this.1, runsThrough_verts k hf v0 v1 v2 (hcyc hf this.1) this.2⟩
+
+/-- **`find_halfface_in_cell` is complete** — no hypothesis on the state: if some halfface of the cell
+    runs `v0 → v1 → v2` the function returns a halfface (by soundness one of the cell running
+    `v0 → v1 → v2`).  `runsThrough_of_pos` gives `RunsThrough` from positions on a halfface whose halfedge
+    list has no duplicate. -/
+theorem findHalffaceInCell_complete (k : Kernel) (c v0 v1 v2 : Nat) (rest : List Nat) (hf : Nat)
+    (hm : hf ∈ k.cellAt c) (hr : RunsThrough k hf v0 v1 v2) :
+    ∃ hf', k.findHalffaceInCell (v0 :: v1 :: v2 :: rest) c = some hf' :=
+  Lookup.findHalffaceInCell_complete k c v0 v1 v2 rest hf hm hr
+
+/-- `Invalid` exactly when no halfface of the cell runs through the three vertices -/
+theorem findHalffaceInCell_none_iff (k : Kernel) (hI : CacheInv k) (hb : k.fBU = true) (c v0 v1 v2 : Nat)
+    (rest : List Nat) (hx : CellExclusive k c) :
+    k.findHalffaceInCell (v0 :: v1 :: v2 :: rest) c = none ↔ ¬ ∃ hf ∈ k.cellAt c, RunsThrough k hf v0 v1 v2 := by
+  constructor
+  · rintro hn ⟨hf, hm, hr⟩
+    obtain ⟨hf', h'⟩ := findHalffaceInCell_complete k c v0 v1 v2 rest hf hm hr
+    rw [hn] at h'; cases h'
+  · intro hne
+    cases h : k.findHalffaceInCell (v0 :: v1 :: v2 :: rest) c with
+    | none => rfl
+    | some hf =>
+      have := findHalffaceInCell_sound k hI hb c v0 v1 v2 rest hf hx h
+      exact absurd ⟨hf, this.1, this.2⟩ hne
+
+/-- non-vacuity: in cell 0 of `twoTets` the query `0 1 3` is answered through the second branch (halfface 1
+    holds the halfedge `1→0`, its neighbour across that edge is halfface 2); the theorem applies and
+    yields membership.  `0 1 2` has no halfface in cell 0 (halfface 0 = `opposite_halfface(1)` has those
+    vertices but is not in the cell: what the planted regression returned), it has one in no cell;
+    `0 1 4` is found in cell 1 only. -/
+example : twoTets.findHalffaceInCell [0, 1, 3] 0 = some 2 ∧ twoTets.adjHalffaceInCell 1 1 = some 2 ∧
+    twoTets.findHalffaceInCell [0, 1, 2] 0 = none ∧ twoTets.hfVerts 0 = [0, 1, 2] ∧ 0 ∉ twoTets.cellAt 0 ∧
+    twoTets.findHalffaceInCell [0, 1, 4] 0 = none ∧ twoTets.findHalffaceInCell [0, 1, 4] 1 = some 4 ∧
+    twoTets.findHalffaceInCell [0, 1, 3, 99] 0 = some 2 := by decide
+example : 2 ∈ twoTets.cellAt 0 ∧ RunsThrough twoTets 2 0 1 3 :=
+  findHalffaceInCell_sound twoTets twoTets_inv rfl 0 0 1 3 [] 2 (twoTets_exclusive 0 (by omega)) (by decide)
+example : ∃ hf', twoTets.findHalffaceInCell [1, 3, 0] 0 = some hf' :=
+  findHalffaceInCell_complete twoTets 0 1 3 0 [] 2 (by decide)
+    (runsThrough_of_pos twoTets 2 1 3 0 1 (by decide) (by decide) (by decide) (by decide) (by decide))
+
+/-- `CellExclusive` is needed: with a halfface listed by two live cells (outside C01's precondition; the cache
+    then names the first of them) the second branch answers from the other cell -/
+example :
+    let k : Kernel :=
+      { twoTets with
+        cells := [[1, 2, 7, 8], [1, 4, 11, 12]],
+        incCell := [none, some 0, some 0, none, some 1, none, none, some 0, some 0, none, none,
+                    some 1, some 1, none, none, none, none, none] }
+    k.cacheInvB = true ∧ k.oneCell = false ∧ k.findHalffaceInCell [0, 1, 3] 1 = some 2 ∧ 2 ∉ k.cellAt 1 := by
+  decide
+
+/-! ### get_halfface_vertices -/
+
+/-- **`get_halfface_vertices(hf, vh)`** (cc:2187-2209), every state: the result is a rotation of the vertex
+    cycle `get_halfface_vertices(hf)` (so a permutation of the same length that keeps the cyclic order);
+    it starts with `vh` when `vh` is a vertex of the halfface and is the unrotated cycle otherwise; it is
+    what the C++ circulator loop reads (`circulateFrom`). -/
+theorem hfVertsFrom_spec (k : Kernel) (hf v : Nat) :
+    (∃ i, k.hfVertsFrom hf v = (k.hfVerts hf).rotateLeft i) ∧
+    (k.hfVertsFrom hf v).Perm (k.hfVerts hf) ∧
+    (v ∈ k.hfVerts hf → (k.hfVertsFrom hf v).head? = some v) ∧
+    (v ∉ k.hfVerts hf → k.hfVertsFrom hf v = k.hfVerts hf) ∧
+    k.hfVertsFrom hf v = circulateFrom (k.hfVerts hf) v :=
+  ⟨hfVertsFrom_rotation k hf v, hfVertsFrom_perm k hf v, hfVertsFrom_head k hf v, hfVertsFrom_absent k hf v,
+   hfVertsFrom_eq_circulate k hf v⟩
+
+/-- **`get_halfface_vertices(hf, heh)`** (cc:2215-2218) is `get_halfface_vertices(hf, from_vertex(heh))`
+    (`hfVertsFromHe`; the kernel model has no separate function, the judge compares this expression):
+    for a halfedge of the halfface the result starts with its source, and on a halfface without a
+    repeated vertex it is the vertex cycle read from that very halfedge on. -/
+theorem hfVertsFromHe_spec (k : Kernel) (hf : Nat) :
+    (∀ he ∈ k.hfHes hf, (hfVertsFromHe k hf he).head? = some (k.fromV he)) ∧
+    (∀ he, ∃ i, hfVertsFromHe k hf he = (k.hfVerts hf).rotateLeft i) ∧
+    ((k.hfVerts hf).Nodup → ∀ i (hi : i < (k.hfHes hf).length),
+      hfVertsFromHe k hf ((k.hfHes hf)[i]) = ((k.hfHes hf).rotateLeft i).map k.fromV) :=
+  ⟨fun he hm => hfVertsFromHe_head k hf he hm, fun he => hfVertsFrom_rotation k hf (k.fromV he),
+   fun hn i hi => hfVertsFromHe_simple k hf i hn hi⟩
+
+/-- non-vacuity; the last line: on a halfface that visits a vertex twice (a figure eight `0 1 2 0 3 4`)
+    the halfedge form starts at the *first* visit of the source, not at the given halfedge -/
+example : twoTets.hfVerts 8 = [1, 2, 3] ∧ twoTets.hfVertsFrom 8 3 = [3, 1, 2] ∧ twoTets.hfVertsFrom 8 2 = [2, 3, 1] ∧
+    twoTets.hfVertsFrom 8 0 = [1, 2, 3] ∧ hfVertsFromHe twoTets 8 14 = [2, 3, 1] ∧ twoTets.hfHes 8 = [2, 14, 7] ∧
+    (twoTets.hfVerts 8).Nodup ∧
+    (let k : Kernel := { nV := 5, edges := [(0, 1), (1, 2), (2, 0), (0, 3), (3, 4), (4, 0)], faces := [[0, 2, 4, 6, 8, 10]] }
+     k.hfVerts 0 = [0, 1, 2, 0, 3, 4] ∧ hfVertsFromHe k 0 6 = [0, 1, 2, 0, 3, 4] ∧
+     ((k.hfHes 0).rotateLeft 3).map k.fromV = [0, 3, 4, 0, 1, 2]) := by decide
+
+/-! ### find_halfface(v0, v1, v2, …): completeness under uniqueness -/
+
+/-- **completeness of the two-stage vertex lookup** (cc:1960-1978) when the halfedges `v0→v1` and `v1→v2`
+    are unique among the not-deleted halfedges (`uniqHe`, decidable): if a not-deleted halfface holds
+    not-deleted halfedges `v0→v1` and `v1→v2`, a halfface is returned (by `findHalffaceV_sound` a live one
+    holding such halfedges).  `_partial`: without uniqueness a face can be hidden, see the witnesses below
+    (DESIGN F11, a documented limitation of the C++). -/
+theorem findHalffaceV_complete_partial (k : Kernel) (hI : CacheInv k) (hv : k.vBU = true) (he : k.eBU = true)
+    (v0 v1 v2 : Nat) (rest : List Nat) (h0 : v0 < k.nV) (h1 : v1 < k.nV)
+    (hu0 : uniqHe k v0 v1 = true) (hu1 : uniqHe k v1 v2 = true)
+    (hf a b : Nat) (hlt : hf < k.nHF) (hl : k.liveF (eOf hf) = true)
+    (ha : a ∈ k.hfHes hf) (ha1 : a < k.nHE) (ha2 : k.liveE (eOf a) = true) (ha3 : k.fromV a = v0) (ha4 : k.toV a = v1)
+    (hb : b ∈ k.hfHes hf) (hb1 : b < k.nHE) (hb2 : k.liveE (eOf b) = true) (hb3 : k.fromV b = v1) (hb4 : k.toV b = v2) :
+    ∃ hf', k.findHalffaceV (v0 :: v1 :: v2 :: rest) = some hf' := by
+  unfold findHalffaceV
+  simp only
+  cases hfa : k.findHalfedge v0 v1 with
+  | none => exact absurd ⟨a, ha1, ha2, ha3, ha4⟩ (findHalfedge_complete k hI hv v0 v1 h0 hfa)
+  | some a' =>
+    cases hfb : k.findHalfedge v1 v2 with
+    | none => exact absurd ⟨b, hb1, hb2, hb3, hb4⟩ (findHalfedge_complete k hI hv v1 v2 h1 hfb)
+    | some b' =>
+      have sa := findHalfedge_sound k hI hv v0 v1 a' h0 hfa
+      have sb := findHalfedge_sound k hI hv v1 v2 b' h1 hfb
+      have ea : a' = a := uniqHe_eq k v0 v1 a' a hu0 sa.1 sa.2.1 sa.2.2.1 sa.2.2.2 ha1 ha2 ha3 ha4
+      have eb : b' = b := uniqHe_eq k v1 v2 b' b hu1 sb.1 sb.2.1 sb.2.2.1 sb.2.2.2 hb1 hb2 hb3 hb4
+      subst ea; subst eb
+      simp only
+      cases hff : k.findHalffaceHes a' b' with
+      | some x => exact ⟨x, rfl⟩
+      | none => exact absurd ⟨hf, hlt, hl, ha, hb⟩ (findHalffaceHes_complete k hI he a' b' ha1 hff)
+
+/-- both uniqueness hypotheses are necessary (F11): a parallel duplicate of edge `0→1` (first state) or of
+    edge `1→2` (second state) hides the only face `0 1 2` from `find_halfface`, in states that satisfy
+    the cache invariant -/
+example :
+    (let k : Kernel := { nV := 3, edges := [(0, 1), (1, 2), (2, 0), (0, 1)], eDel := [false, false, false, false],
+                         vDel := [false, false, false], faces := [[6, 2, 4]], fDel := [false],
+                         outHes := [[0, 5, 6], [1, 2, 7], [3, 4]],
+                         incHfs := [[], [], [0], [1], [0], [1], [0], [1]], incCell := [none, none] }
+     k.cacheInvB = true ∧ k.hfVerts 0 = [0, 1, 2] ∧ k.liveF 0 = true ∧ k.findHalffaceV [0, 1, 2] = none ∧
+     uniqHe k 0 1 = false ∧ uniqHe k 1 2 = true) ∧
+    (let k : Kernel := { nV := 3, edges := [(0, 1), (1, 2), (2, 0), (1, 2)], eDel := [false, false, false, false],
+                         vDel := [false, false, false], faces := [[0, 6, 4]], fDel := [false],
+                         outHes := [[0, 5], [1, 2, 6], [3, 4, 7]],
+                         incHfs := [[0], [1], [], [], [0], [1], [0], [1]], incCell := [none, none] }
+     k.cacheInvB = true ∧ k.hfVerts 0 = [0, 1, 2] ∧ k.liveF 0 = true ∧ k.findHalffaceV [0, 1, 2] = none ∧
+     uniqHe k 0 1 = true ∧ uniqHe k 1 2 = false) := by decide
+
+/-- non-vacuity of `findHalffaceV_complete_partial` -/
+example : ∃ hf', twoTets.findHalffaceV [1, 3, 0] = some hf' :=
+  findHalffaceV_complete_partial twoTets twoTets_inv rfl rfl 1 3 0 [] (by decide) (by decide) (by decide) (by decide)
+    2 6 8 (by decide) (by decide) (by decide) (by decide) (by decide) (by decide) (by decide)
+    (by decide) (by decide) (by decide) (by decide) (by decide)
+
+/-! ### n_vertices_in_cell -/
+
+/-- **`n_vertices_in_cell`** (hh:1098-1108) is the number of distinct target vertices of the halfedges of
+    the cell's halffaces: the length of any duplicate-free list with exactly those members; when the
+    halffaces of the cell are closed halfedge cycles this is the number of distinct vertices of the cell's
+    halffaces. -/
+theorem nVerticesInCell_spec (k : Kernel) (c : Nat) (l : List Nat) (hn : l.Nodup) :
+    ((∀ v, v ∈ l ↔ ∃ hf ∈ k.cellAt c, ∃ h ∈ k.hfHes hf, k.toV h = v) → k.nVerticesInCell c = l.length) ∧
+    ((∀ hf ∈ k.cellAt c, HfCyclic k hf) → (∀ v, v ∈ l ↔ ∃ hf ∈ k.cellAt c, v ∈ k.hfVerts hf) →
+      k.nVerticesInCell c = l.length) :=
+  ⟨fun hl => Lookup.nVerticesInCell_spec k c l hn hl, fun hc hl => nVerticesInCell_spec_cyclic k c hc l hn hl⟩
+
+example : twoTets.nVerticesInCell 0 = 4 ∧ twoTets.nVerticesInCell 1 = 4 := by decide
+example : twoTets.nVerticesInCell 1 = [0, 1, 3, 4].length :=
+  (nVerticesInCell_spec twoTets 1 [0, 1, 3, 4] (by decide)).1 (by
+    intro v
+    have hv : v ∈ [0, 1, 3, 4] ∨ v ∉ [0, 1, 3, 4] := Decidable.em _
+    constructor
+    · intro h
+      simp only [List.mem_cons, List.not_mem_nil, or_false] at h
+      rcases h with rfl | rfl | rfl | rfl <;> decide
+    · rintro ⟨hf, h1, h, h2, rfl⟩
+      have : ∀ hf ∈ twoTets.cellAt 1, ∀ h ∈ twoTets.hfHes hf, twoTets.toV h ∈ [0, 1, 3, 4] := by decide
+      exact this hf h1 h h2)
+
+/-! ### find_halfedge_in_cell -/
+
+/-- **`find_halfedge_in_cell`** (cc:1932-1949), every state: a returned halfedge goes from `a` to `b` and it
+    or its opposite is a halfedge of a halfface of the cell; `Invalid` is returned exactly when no
+    halfedge of a halfface of the cell joins the two vertices in either direction. -/
+theorem findHalfedgeInCell_spec (k : Kernel) (a b c : Nat) :
+    (∀ r, k.findHalfedgeInCell a b c = some r →
+      k.fromV r = a ∧ k.toV r = b ∧ ∃ hf ∈ k.cellAt c, r ∈ k.hfHes hf ∨ opp r ∈ k.hfHes hf) ∧
+    (k.findHalfedgeInCell a b c = none ↔
+      ¬ ∃ hf ∈ k.cellAt c, ∃ h ∈ k.hfHes hf, (k.fromV h = a ∧ k.toV h = b) ∨ (k.fromV h = b ∧ k.toV h = a)) :=
+  ⟨fun r h => findHalfedgeInCell_sound k a b c r h, findHalfedgeInCell_none_iff k a b c⟩
+
+example : twoTets.findHalfedgeInCell 0 3 0 = some 9 ∧ twoTets.findHalfedgeInCell 3 0 0 = some 8 ∧
+    twoTets.findHalfedgeInCell 0 4 0 = none ∧ twoTets.findHalfedgeInCell 0 4 1 = some 13 ∧
+    twoTets.halfedge 9 = (0, 3) := by decide
+
+/-! ### find_halfface_extensive -/
+
+/-- **`find_halfface_extensive` is sound** (cc:2025-2068): a returned halfface is not deleted and its
+    vertex cycle, read from some position on, is exactly the requested list (all of it, unlike
+    `find_halfface`): `(hfVerts hf).rotateLeft i = vs`.  (The model also answers two-element lists; the C++
+    asserts `size > 2`.) -/
+theorem findHalffaceExtensive_sound (k : Kernel) (hI : CacheInv k) (hv : k.vBU = true) (he : k.eBU = true)
+    (v0 v1 : Nat) (rest : List Nat) (hf : Nat) (h0 : v0 < k.nV)
+    (h : k.findHalffaceExtensive (v0 :: v1 :: rest) = some hf) :
+    hf < k.nHF ∧ k.liveF (eOf hf) = true ∧
+    ∃ i, i < (k.hfHes hf).length ∧ (k.hfVerts hf).rotateLeft i = v0 :: v1 :: rest := by
+  unfold findHalffaceExtensive at h
+  simp only at h
+  cases ha : k.findHalfedge v0 v1 with
+  | none => simp [ha] at h
+  | some a =>
+    simp only [ha] at h
+    have sa := findHalfedge_sound k hI hv v0 v1 a h0 ha
+    have hm := List.mem_of_find?_eq_some h
+    have hp := List.find?_some h
+    unfold qHEHF at hm; simp only [he, if_true] at hm
+    have hlive := ((hI.e he).2 a sa.1).mem_iff.mp hm
+    rw [mem_sHfsOfHe] at hlive
+    simp only [Bool.and_eq_true, beq_iff_eq] at hp
+    have hpos : 0 < (k.hfHes hf).length := by rw [hp.1]; simp
+    have hoff := lastIdxOf_lt (k.hfHes hf) a hpos
+    exact ⟨hlive.1, hlive.2.1, _, hoff, rotation_of_all k hf _ _ hoff hp.1 hp.2⟩
+
+/-- **completeness of `find_halfface_extensive`, partial**: if a not-deleted halfface without a repeated
+    halfedge, whose halfedges form a closed cycle, has the requested vertex cycle from position `j` on, its
+    halfedge at `j` is not deleted and the halfedge `v0→v1` is unique, a halfface is returned.
+    `_partial`: with parallel duplicates of `v0→v1` the face can be hidden exactly as for `find_halfface`
+    (F11); a halfface repeating the halfedge makes the C++ take the *last* occurrence as offset. -/
+theorem findHalffaceExtensive_complete_partial (k : Kernel) (hI : CacheInv k) (hv : k.vBU = true) (he : k.eBU = true)
+    (v0 v1 : Nat) (rest : List Nat) (h0 : v0 < k.nV) (hu : uniqHe k v0 v1 = true)
+    (hf : Nat) (hlt : hf < k.nHF) (hl : k.liveF (eOf hf) = true) (hn : (k.hfHes hf).Nodup) (hc : HfCyclic k hf)
+    (j : Nat) (hj : j < (k.hfHes hf).length) (hrot : (k.hfVerts hf).rotateLeft j = v0 :: v1 :: rest)
+    (ha1 : (k.hfHes hf)[j] < k.nHE) (ha2 : k.liveE (eOf ((k.hfHes hf)[j])) = true) :
+    ∃ hf', k.findHalffaceExtensive (v0 :: v1 :: rest) = some hf' := by
+  obtain ⟨hlen, hall⟩ := all_of_rotation k hf j _ hj hrot
+  have hl2 : 2 ≤ (k.hfHes hf).length := by rw [hlen]; simp
+  have hvl : (k.hfVerts hf).length = (k.hfHes hf).length := by unfold hfVerts; simp
+  -- the halfedge at `j` goes from `v0` to `v1`
+  have e0 : k.fromV ((k.hfHes hf)[j]) = v0 := by
+    have := getElem?_rotateLeft (k.hfVerts hf) j 0 (by omega) (by omega)
+    rw [hrot, hvl, Nat.add_zero, Nat.mod_eq_of_lt hj, hfVerts_getElem? k hf j hj] at this
+    simpa using this.symm
+  have e1 : k.toV ((k.hfHes hf)[j]) = v1 := by
+    have hlt1 : (j + 1) % (k.hfHes hf).length < (k.hfHes hf).length := Nat.mod_lt _ (by omega)
+    have := getElem?_rotateLeft (k.hfVerts hf) j 1 (by omega) (by omega)
+    rw [hrot, hvl, hfVerts_getElem? k hf _ hlt1, ← hc j hj] at this
+    simpa using this.symm
+  unfold findHalffaceExtensive
+  simp only
+  cases hfa : k.findHalfedge v0 v1 with
+  | none => exact absurd ⟨_, ha1, ha2, e0, e1⟩ (findHalfedge_complete k hI hv v0 v1 h0 hfa)
+  | some a' =>
+    have sa := findHalfedge_sound k hI hv v0 v1 a' h0 hfa
+    have ea : a' = (k.hfHes hf)[j] := uniqHe_eq k v0 v1 a' _ hu sa.1 sa.2.1 sa.2.2.1 sa.2.2.2 ha1 ha2 e0 e1
+    simp only
+    cases hres : (k.qHEHF a').find? _ with
+    | some x => exact ⟨x, rfl⟩
+    | none =>
+      exfalso
+      rw [List.find?_eq_none] at hres
+      have hm : hf ∈ k.qHEHF a' := by
+        unfold qHEHF; simp only [he, if_true]
+        exact ((hI.e he).2 a' sa.1).mem_iff.mpr ((mem_sHfsOfHe k a' hf).mpr ⟨hlt, hl, by rw [ea]; exact List.getElem_mem hj⟩)
+      have := hres hf hm
+      rw [ea, lastIdxOf_nodup _ hn j hj] at this
+      apply this
+      rw [Bool.and_eq_true]
+      exact ⟨beq_iff_eq.mpr hlen, hall⟩
+
+example : twoTets.findHalffaceExtensive [0, 1, 3] = some 2 ∧ twoTets.findHalffaceExtensive [1, 3, 0] = some 2 ∧
+    twoTets.findHalffaceExtensive [3, 1, 0] = some 3 ∧ twoTets.findHalffaceExtensive [0, 1, 3, 2] = none ∧
+    twoTets.findHalffaceV [0, 1, 3, 2] = some 2 ∧
+    twoTets.hfVerts 2 = [0, 1, 3] := by decide
+example : ∃ i, i < (twoTets.hfHes 2).length ∧ (twoTets.hfVerts 2).rotateLeft i = [1, 3, 0] :=
+  (findHalffaceExtensive_sound twoTets twoTets_inv rfl rfl 1 3 [0] 2 (by decide) (by decide)).2.2
+example : ∃ hf', twoTets.findHalffaceExtensive [3, 0, 1] = some hf' :=
+  findHalffaceExtensive_complete_partial twoTets twoTets_inv rfl rfl 3 0 [1] (by decide) (by decide) 2 (by decide)
+    (by decide) (by decide) (hfCyclic_of_B _ _ (by decide)) 2 (by decide) (by decide) (by decide) (by decide)
+
+/-! ### find_halfface_in_cell against the brute-force search over vertex cycles -/
+
+/-- **completeness of `find_halfface_in_cell` in the vertex form, partial**: if a halfface of the cell whose
+    halfedges form a closed cycle without a repeated halfedge has `v0 v1 v2` as three cyclically consecutive
+    vertices, a halfface is returned.  `_partial`: for a halfface that repeats a halfedge
+    `next_halfedge_in_halfface` continues from the first occurrence only, so a later run can be missed
+    (such halffaces cannot be part of a cell accepted by `add_cell`'s check). -/
+theorem findHalffaceInCell_complete_verts_partial (k : Kernel) (c v0 v1 v2 : Nat) (rest : List Nat) (hf i : Nat)
+    (hm : hf ∈ k.cellAt c) (hc : HfCyclic k hf) (hn : (k.hfHes hf).Nodup) (hi : i < (k.hfHes hf).length)
+    (h0 : (k.hfVerts hf)[i]? = some v0) (h1 : (k.hfVerts hf)[(i + 1) % (k.hfHes hf).length]? = some v1)
+    (h2 : (k.hfVerts hf)[(i + 2) % (k.hfHes hf).length]? = some v2) :
+    ∃ hf', k.findHalffaceInCell (v0 :: v1 :: v2 :: rest) c = some hf' :=
+  findHalffaceInCell_complete k c v0 v1 v2 rest hf hm (runsThrough_of_verts k hf v0 v1 v2 i hc hn hi h0 h1 h2)
+
+example : ∃ hf', twoTets.findHalffaceInCell [3, 1, 0] 1 = some hf' :=
+  findHalffaceInCell_complete_verts_partial twoTets 1 3 1 0 [] 3 1 (by decide) (hfCyclic_of_B _ _ (by decide))
+    (by decide) (by decide) (by decide) (by decide) (by decide)
+
+/-- **no read through an invalid handle in `find_halfface_in_cell`** (every state): both calls
+    `to_vertex_handle(next_halfedge_in_halfface(..))` (cc:1997, cc:2005) receive a valid halfedge -/
+theorem findHalffaceInCell_next_valid (k : Kernel) (hf he : Nat) (hm : he ∈ k.hfHes hf) :
+    (∃ r, k.nextHe he hf = some r) ∧
+    ∀ a, k.adjHalffaceInCell hf he = some a → ∃ r, k.nextHe (opp he) a = some r :=
+  Lookup.findHalffaceInCell_next_valid k hf he hm
+
+/-- in a closed cell the halfedge returned by `find_halfedge_in_cell` is itself a halfedge of the cell -/
+theorem findHalfedgeInCell_mem_closed (k : Kernel) (a b c r : Nat) (hcl : ClosedSurface k (k.cellAt c))
+    (h : k.findHalfedgeInCell a b c = some r) : r ∈ k.cellHalfedges (k.cellAt c) :=
+  Lookup.findHalfedgeInCell_mem_closed k a b c r hcl h
+
+example : ClosedSurface twoTets (twoTets.cellAt 0) ∧ twoTets.findHalfedgeInCell 0 3 0 = some 9 ∧
+    9 ∈ twoTets.cellHalfedges (twoTets.cellAt 0) ∧ twoTets.adjHalffaceInCell 1 1 = some 2 ∧
+    twoTets.nextHe (opp 1) 2 = some 6 := by decide
 
 end OVM.Props.C10
